@@ -285,6 +285,41 @@ def recover (invalid : BranchId → List Nat) (window batchSize : Nat) (scopes :
     (blocks : List (Nat × Block)) (cuts : Nat → Bool) : State :=
   recoverChain invalid batchSize (blocks.length + 1) (resurrect invalid (State.init window scopes)) blocks cuts 0
 
+/-! ### Interrupted runs (what is on disk when a run of `Wallet.recovery` ends early)
+
+`recovery()` walks the heights above the wallet's tip; per height it first looks at the quit flag (`syncer.quit`, set by
+`endRecovery`: `Wallet.Lock`, the unlock timeout, `Wallet.Stop`), then fetches the block, and when `recoveryBatchSize`
+blocks are collected (or the best height is reached) scans the batch and stores the blocks' sync points in ONE database
+transaction.  A run that ends early — quit flag seen, or `FilterBlocks` failing inside a batch (the batch's
+transaction is rolled back) — therefore leaves exactly the batches completed before on disk; the next run
+(`syncWithChain` retried by `waitForSync`, or the wallet reopened) starts above the last stored sync point from
+`Resurrect`.  In the model: a prefix of the block list processed by `recoverChain`, then `resurrect` and
+`recoverChain` over the rest — the semantics of `cuts`. -/
+
+/-- Number of blocks committed by a run that is told to stop while it fetches the `k`-th block above its start
+    (1-based; the flag is seen before block `k+1` is fetched): the full batches among the first `k` blocks. -/
+def committedAt (batchSize k : Nat) : Nat := max batchSize 1 * (k / max batchSize 1)
+
+/-- State left by a run over `blocks` (from the in-memory state `st`) that is told to stop while it fetches block `k`
+    (`k < blocks.length`; an interruption while the last block is fetched is not noticed). -/
+def recoverInterrupted (invalid : BranchId → List Nat) (batchSize : Nat) (st : State) (blocks : List (Nat × Block))
+    (cuts : Nat → Bool) (k : Nat) : State :=
+  let pre := blocks.take (committedAt batchSize k)
+  recoverChain invalid batchSize (pre.length + 1) st pre cuts 0
+
+/-- A run whose FilterBlocks request number `target` (in the numbering of the ghost counter `calls`) fails: the batch
+    that makes the request is rolled back, the run ends.  Result: the state before that batch and the number of blocks
+    committed by the earlier batches (counted from `done`); `none` = the run makes fewer requests. -/
+def recoverChainFail (invalid : BranchId → List Nat) (batchSize target : Nat) :
+    Nat → State → List (Nat × Block) → Nat → Option (State × Nat)
+  | 0, _, _, _ => none
+  | fuel + 1, st, blocks, done =>
+    if blocks.isEmpty then none else
+    let bs := max batchSize 1
+    let st' := recoverBatch invalid st (blocks.take bs)
+    if target ≤ st'.calls then some (st, done)
+    else recoverChainFail invalid batchSize target fuel st' (blocks.drop bs) (done + bs)
+
 /-- `CalculateBalance(1)` / the `UnspentOutputs` listing: unspent credits that are not `hidden`. -/
 def spendable (st : State) : List Credit := st.credits.filter (fun c => !c.spent && !hidden st c.op)
 
